@@ -83,16 +83,17 @@ def orbit_events(g, n, rng, quick):
 
     combos = [(None, None, False, False, False), (1, None, True, False, False), (2, 5, False, False, False),
               (None, 3, True, False, False), (2, None, False, True, False), (3, None, True, True, False),
+              (6, None, True, True, False), (15, None, False, True, False), (6, 6, True, True, False),
               (2, None, False, False, True), (None, 4, False, True, True)]
     if quick:
-        combos = combos[:5]
+        combos = combos[:9]
     for depth, size, with_iso, rand, rep in combos:
         np.random.seed(rng.randrange(2 ** 31))
-        # "distinct graphs" are promised when repetitions are not allowed and equality (not isomorphism) is the filter
+        # "distinct graphs" are asked for whenever repetitions are not allowed (random walks included)
         rec(f"lc_orbit_finder(depth={depth},size={size},with_iso={with_iso},rand={rand},rep={rep})",
             lambda: rm.lc_orbit_finder(g.copy(), comp_depth=depth, orbit_size_thresh=size, with_iso=with_iso,
                                        rand=rand, rep_allowed=rep),
-            distinct=(not rep) and (not rand))
+            distinct=(not rep))
     if nx.is_connected(g) and n >= 2:
         rec("depth_first_orbit", lambda: rm.depth_first_orbit(g.copy()), distinct=False)
     degs = sorted(d for _, d in g.degree())
